@@ -121,7 +121,7 @@ def identity_map(schema):
 
 def apply_visibility(ir, hidden_types, hidden_fields, hidden_inputs, hidden_dirs):
     """Expected IR after VisibilitySchemaTransform (direct and indirect removals)."""
-    v = copy.deepcopy(ir)
+    v = S.clone(ir)
     for n in hidden_types:
         v.types.pop(n, None)
     for d in hidden_dirs:
@@ -154,7 +154,7 @@ def apply_visibility(ir, hidden_types, hidden_fields, hidden_inputs, hidden_dirs
 def apply_camel(ir):
     from py_gql._string_utils import snakecase_to_camelcase as cc
 
-    v = copy.deepcopy(ir)
+    v = S.clone(ir)
     seen = {}
     for t in v.types.values():
         newf = []
@@ -551,7 +551,7 @@ def run(ctx):
                         cir = cur.ir
                         n = len(states) * 10 + oi
                         q = cir.types[cir.query]
-                        new_ir = copy.deepcopy(cir)
+                        new_ir = S.clone(cir)
                         t = SType("object", "Added%d" % n, "added by extension")
                         t.fields = [SField("added_leaf", named("Int")), SField("added_extra", named("String"))]
                         new_ir.add(t)
